@@ -227,6 +227,21 @@ const RULESETS2: [(&str, &str); 2] = [
                 let comps = all_component_iris(&all);
                 let want = decode_view(&naive_sds_plus(&rules, &alive, &dict, now), &dict);
                 let naive_all = decode_view(&naive_sds_plus(&rules, &all, &dict, now), &dict);
+                if name == "copy-both" {
+                    // independent oracle (no code of the crate involved): which window holds an alive (x p y) at `now`
+                    let alive_a = (0..=now).any(|t| (t as usize) < h.len() && h[t as usize] & 1 != 0 && t + ALPHA_A > now);
+                    let alive_b = (0..=now).any(|t| (t as usize) < h.len() && h[t as usize] & 2 != 0 && t + ALPHA_B > now);
+                    let mut expected = View::new();
+                    let f = |p: &str| -> BTreeSet<(String, String, String)> { [("x".to_string(), p.to_string(), "y".to_string())].into() };
+                    if alive_a { expected.insert(A2.to_string(), f("p")); }
+                    if alive_b { expected.insert(B2.to_string(), f("p")); }
+                    let mut out = BTreeSet::new();
+                    if alive_a { out.extend(f("fromA")); }
+                    if alive_b { out.extend(f("fromB")); }
+                    if alive_a && alive_b { out.extend(f("both")); }
+                    if !out.is_empty() { expected.insert(OUT.to_string(), out); }
+                    assert!(want == expected, "rules {}: history {:?} (bit0 = arrival in <{}> width {}, bit1 = arrival in <{}> width {}), evaluation time {}: from-scratch reasoning gives {:?}; by the window semantics (a triple that arrived at t is alive while t + width > now) it must give {:?}", name, h, A2, ALPHA_A, B2, ALPHA_B, now, want, expected);
+                }
                 assert!(naive_all == want, "rules {}: history {:?}, evaluation time {}: from-scratch reasoning over the windows' full arrival lists gives {:?}, over their alive content (event_time + width > now) {:?}", name, h, now, naive_all, want);
                 state = incremental_sds_plus(&rules, &all, &state, &dict, now);
                 let incr = decode_view(&sds_with_expiry_to_external(&state, &dict, &comps), &dict);
